@@ -21,24 +21,54 @@ VARIABLES l, scn, pages, ncmp
 vars == <<l, scn, pages, ncmp>>
 K == [chunk |-> 65536, near |-> 44100, read |-> 2048, backup |-> "begin", handover |-> "refetch", clamp |-> TRUE]
 Note(rules, e) == IF rules = {} THEN TRUE ELSE PrintT("DRIFT " \o ToJson([line |-> l, scn |-> Tr[scn].scn, ev |-> e.e, rules |-> rules]))
-NoPages == [pg |-> <<>>, lk |-> <<>>, f |-> -1]
+NoPages == [pg |-> <<>>, lk |-> <<>>, f |-> -1, dmg |-> <<>>, ndmg |-> 0]
 IsPrefix(a, b) == Len(a) <= Len(b) /\ \A i \in 1..Len(a) : a[i] = b[i]
+\* the page table of the file before any damage, in the model's terms
+Table0 ==
+  LET lk == pages.lk IN
+  [j \in 1..Len(pages.pg) |->
+     LET q == pages.pg[j] IN [off |-> q.o, len |-> q.n, ser |-> q.s, gp |-> q.g, bos |-> q.b = 1,
+                               hp |-> IF q.l >= 0 /\ q.o < lk[q.l + 1].doff THEN q.k ELSE 0, bs |-> IF q.l >= 0 /\ q.o >= lk[q.l + 1].doff THEN q.bl ELSE <<>>, ours |-> FALSE, cont |-> q.c = 1]]
+\* Damage the model can follow: an AUDIO page (or a page of a foreign stream) that lies about itself - granule position, serial number, flags, sequence
+\* number - or is missing or there twice.  The page stays a well-formed page; what the packets on the header pages are is untouched, which is all the
+\* model knows about packets.  Anything else (garbage, truncation, flipped bits, a header page hit) is left to the safety rules of VFApi.
+FieldKinds == {"setgp", "gphuge", "setserial", "setbos", "seteos", "cleareos", "setseq", "setcont", "clearcont"}
+CanFollow(ps, m) == m.a + 1 \in 1..Len(ps) /\ ps[m.a + 1].hp = 0 /\ ~ps[m.a + 1].bos /\ m.kind \in FieldKinds \cup {"drop", "dup"} /\ (m.kind \in {"setcont", "clearcont"} => ~ps[m.a + 1].cont)
+ApplyOne(ps, m) ==
+  LET k == m.a + 1  p == ps[k]
+      q == CASE m.kind = "setgp" -> [p EXCEPT !.gp = m.b]
+             [] m.kind = "gphuge" -> [p EXCEPT !.gp = 2000000000]
+             [] m.kind = "setserial" -> [p EXCEPT !.ser = m.b]
+             [] m.kind = "setbos" -> [p EXCEPT !.bos = TRUE]
+             [] m.kind = "setcont" -> [p EXCEPT !.bs = IF @ = <<>> THEN @ ELSE Tail(@)]      \* libogg skips what such a page claims to continue when there is nothing to continue
+             [] OTHER -> p
+  IN IF m.kind = "drop" THEN SubSeq(ps, 1, k - 1) \o SubSeq(ps, k + 1, Len(ps))
+     ELSE IF m.kind = "dup" THEN SubSeq(ps, 1, k) \o SubSeq(ps, k, Len(ps))
+     ELSE [ps EXCEPT ![k] = q]
+RECURSIVE ApplyAll(_, _, _)
+ApplyAll(ps, d, i) == IF i > Len(d) THEN [ok |-> TRUE, ps |-> ps] ELSE IF ~CanFollow(ps, d[i]) THEN [ok |-> FALSE, ps |-> ps] ELSE ApplyAll(ApplyOne(ps, d[i]), d, i + 1)
+RECURSIVE Reoffset(_, _, _)
+Reoffset(ps, k, o) == IF k > Len(ps) THEN <<>> ELSE << [ps[k] EXCEPT !.off = o] >> \o Reoffset(ps, k + 1, o + ps[k].len)
+Damaged == pages.ndmg > 0
+Followed == IF ~Damaged THEN [ok |-> TRUE, ps |-> Table0] ELSE IF pages.ndmg > Len(pages.dmg) THEN [ok |-> FALSE, ps |-> <<>>] ELSE ApplyAll(Table0, pages.dmg, 1)
+Cl(x) == IF x > 1900000000 THEN 1900000000 ELSE x
+ClTab(t) == [i \in 1..Len(t) |-> [t[i] EXCEPT !.first = Cl(@), !.len = Cl(@)]]
 Judge(e) ==
   LET lk == pages.lk
-      PG == [j \in 1..Len(pages.pg) |->
-               LET q == pages.pg[j] IN [off |-> q.o, len |-> q.n, ser |-> q.s, gp |-> q.g, bos |-> q.b = 1,
-                                         hp |-> IF q.l >= 0 /\ q.o < lk[q.l + 1].doff THEN q.k ELSE 0, dur |-> q.d, ours |-> FALSE]]
+      PG == IF Damaged THEN Reoffset(Followed.ps, 1, 0) ELSE Table0
       VS == { lk[i].ser : i \in 1..Len(lk) }
       r == Open(PG, VS, K)
-  IN (IF r.ok /\ r.links = e.tab THEN {} ELSE {"LinkTableAsModelled"}) \cup (IF IsPrefix(<<0>> \o r.probes, e.probes) THEN {} ELSE {"ProbesAsModelled"})
-Applies(e) == e.e = "Open" /\ "probes" \in DOMAIN e /\ e.mode = "seek" /\ e.init = 0 /\ e.ret = 0 /\ pages.pg # <<>> /\ pages.f = e.f
+  IN (IF r.ok = (e.ret = 0) THEN {} ELSE {"OpenVerdictAsModelled"})
+     \cup (IF e.ret = 0 /\ r.ok /\ ClTab(r.links) # ClTab(e.tab) THEN {"LinkTableAsModelled"} ELSE {})
+     \cup (IF IsPrefix(<<0>> \o r.probes, e.probes) THEN {} ELSE {"ProbesAsModelled"})
+Applies(e) == e.e = "Open" /\ "probes" \in DOMAIN e /\ e.mode = "seek" /\ e.init = 0 /\ pages.pg # <<>> /\ pages.f = e.f /\ (IF Damaged THEN Followed.ok ELSE e.ret = 0)
 Init == l = 1 /\ scn = 1 /\ pages = NoPages /\ ncmp = 0
 Next ==
   /\ l <= Len(Tr)
   /\ LET e == Tr[l] IN
      CASE e.e = "Reset" -> scn' = l /\ l' = l + 1 /\ pages' = NoPages /\ UNCHANGED ncmp
-       [] e.e = "Pages" -> pages' = [pg |-> e.pg, lk |-> e.lk, f |-> e.f] /\ l' = l + 1 /\ UNCHANGED <<scn, ncmp>>
-       [] Applies(e) -> Note(Judge(e), e) /\ ncmp' = ncmp + 1 /\ l' = l + 1 /\ UNCHANGED <<scn, pages>>
+       [] e.e = "Pages" -> pages' = [pg |-> e.pg, lk |-> e.lk, f |-> e.f, dmg |-> IF "dmg" \in DOMAIN e THEN e.dmg ELSE <<>>, ndmg |-> IF "ndmg" \in DOMAIN e THEN e.ndmg ELSE 0] /\ l' = l + 1 /\ UNCHANGED <<scn, ncmp>>
+       [] Applies(e) -> Note(Judge(e), e) /\ (Damaged => PrintT("FOLLOWED 1")) /\ ncmp' = ncmp + 1 /\ l' = l + 1 /\ UNCHANGED <<scn, pages>>
        [] e.e = "End" -> PrintT("COMPARED " \o ToString(ncmp)) /\ l' = l + 1 /\ ncmp' = 0 /\ UNCHANGED <<scn, pages>>
        [] OTHER -> l' = l + 1 /\ UNCHANGED <<scn, pages, ncmp>>
 Spec == Init /\ [][Next]_vars
